@@ -119,6 +119,77 @@ def lexer_wiring(rep: Report, tree: ast.Module) -> None:
               f"src/measured/_parser.py:{sm[0].lineno if sm else 0}")
 
 
+def _strip_for_compare(node: ast.AST) -> ast.AST:
+    import copy as _copy
+    node = _copy.deepcopy(node)
+    for n in ast.walk(node):
+        if isinstance(n, (ast.FunctionDef, ast.ClassDef, ast.AsyncFunctionDef)):
+            if n.body and isinstance(n.body[0], ast.Expr) and isinstance(n.body[0].value, ast.Constant) and isinstance(n.body[0].value.value, str):
+                n.body = n.body[1:] or [ast.Pass()]
+        if isinstance(n, (ast.FunctionDef, ast.AsyncFunctionDef)):
+            n.returns = None
+            for a in n.args.args + n.args.kwonlyargs + n.args.posonlyargs + [x for x in (n.args.vararg, n.args.kwarg) if x]:
+                a.annotation = None
+    return node
+
+
+def _functions(tree: ast.AST, prefix: str = "") -> Dict[str, ast.AST]:
+    out: Dict[str, ast.AST] = {}
+    for n in getattr(tree, "body", []):
+        if isinstance(n, (ast.FunctionDef, ast.AsyncFunctionDef)):
+            out[prefix + n.name] = n
+        elif isinstance(n, ast.ClassDef):
+            out.update(_functions(n, prefix + n.name + "."))
+    return out
+
+
+def runtime_against_installed(rep: Report, tree: ast.Module, embedded: str, installed: str) -> None:
+    """R16.9: every function of the embedded runtime is compared (AST, docstrings and annotations
+    removed) with the function of the same qualified name in the installed Lark's *source*.  The two
+    versions differ in a known set of functions (sa/data/lark_runtime_residue.json, recorded for this
+    pair of versions); every other function must be identical - a hand edit of the generated file
+    shows up as a function that left the identical set.  For any other pair of versions the rule is
+    inventory only (R16.6 compares the whole text when the versions are equal)."""
+    import glob
+    import json as _json
+    table = _json.load(open(os.path.join(os.path.dirname(os.path.dirname(__file__)), "data", "lark_runtime_residue.json")))
+    try:
+        import lark as _lark
+        lp = os.path.dirname(_lark.__file__)
+    except Exception as e:  # pragma: no cover
+        raise AnalysisError(f"installed Lark not importable: {e}")
+    ref: Dict[str, List[str]] = {}
+    for f in sorted(glob.glob(lp + "/**/*.py", recursive=True)):
+        try:
+            t = ast.parse(open(f).read())
+        except SyntaxError:
+            continue
+        for k, v in _functions(t).items():
+            ref.setdefault(k, []).append(ast.dump(_strip_for_compare(v)))
+    shipped = _functions(tree)
+    applicable = (embedded == table["embedded"] and installed == table["installed"])
+    residue = set(table["not_compared"])
+    same = 0
+    for k, v in sorted(shipped.items()):
+        identical = ast.dump(_strip_for_compare(v)) in ref.get(k, [])
+        if identical:
+            same += 1
+        if not applicable:
+            continue
+        if k in residue:
+            continue
+        rep.check("R16.9", f"runtime:{k}", identical,
+                  f"{k} in the embedded Lark runtime is no longer identical to Lark {installed}'s {k} (it was at the pinned commit, and it is not "
+                  "one of the functions that differ between the two Lark versions): the generated parser was edited by hand, so it no "
+                  "longer runs the compared tables the way a parser built from the grammar does", f"src/measured/_parser.py:{v.lineno}")
+    rep.analysed["runtime_functions"] = {"embedded": len(shipped), "identical_to_installed": same, "residue_not_compared": len(residue),
+                                         "table_applies": applicable}
+    if not applicable:
+        rep.inventory("R16.9", {"note": f"embedded Lark {embedded} / installed {installed}: no residue table for this pair, functions identical: {same}/{len(shipped)}"})
+        r = rep.rules["R16.9"]
+        r.floor = 0
+
+
 def parser_wiring(rep: Report, tree: ast.Module) -> None:
     """R16.8: the LALR driver consults the compared tables and nothing else:
       a. the action for a token is `states[<top of state stack>][token.type]`, a miss raises UnexpectedToken;
@@ -163,6 +234,7 @@ def parser_wiring(rep: Report, tree: ast.Module) -> None:
 
 
 def run(rep: Report) -> None:
+    rep.rule("R16.9", "embedded runtime vs installed Lark source: every function outside the recorded version-difference residue is identical", floor=150)
     rep.rule("R16.8", "embedded LALR driver wiring: actions and gotos come from the (compared) tables, reductions pop the rule's length", floor=5)
     rep.rule("R16.7", "embedded lexer wiring: input is consumed only through the scanner built from the (compared) terminal table", floor=5)
     rep.rule("R16.1", "options: parser type, lexer type and start symbols agree between grammar build, shipped artefact, "
@@ -233,6 +305,7 @@ def run(rep: Report) -> None:
                   "src/measured/_parser.py")
     lexer_wiring(rep, sh.tree)
     parser_wiring(rep, sh.tree)
+    runtime_against_installed(rep, sh.tree, str(sh.version), str(lark_version))
     # R16.6
     rep.inventory("R16.6", {"embedded_lark": sh.version, "installed_lark": lark_version,
                             "compared": sh.version == lark_version,
